@@ -68,22 +68,45 @@ def register(reg):
     # ------------------------------------------------------------------ Sort.then
     k = reg.contract("_operations._sort:Sort.then", properties=("C05",))
     k.ens("next-terms-first-then-new-ones", lambda c: B(V.is_tcat(c.attr(c.result, "terms").z, c.attr(c.self, "terms").z, c.attr(c.next, "terms").z)))
-    k.inv(0, lambda c, i, env, seq: B(env.new_terms.z == V.tcatp(c.attr(c.self, "terms").z, c.attr(c.next, "terms").z, i.z)))
+    TEng = TRefT(None)
+    both = lambda c, g: z3.And(V.all_supp(c.attr(c.self, "terms").z, g.z), V.all_supp(c.attr(c.next, "terms").z, g.z))  # noqa: E731
+    k.ens("supported-where-both-are", lambda c: c.forall([(TEng, "eng")], lambda g: B(z3.Implies(both(c, g), V.all_supp(c.attr(c.result, "terms").z, g.z))),
+                                                         patterns=lambda g: [V.all_supp(c.attr(c.result, "terms").z, g.z)]))
+    k.inv(0, lambda c, i, env, seq: B(z3.And(env.new_terms.z == V.tcatp(c.attr(c.self, "terms").z, c.attr(c.next, "terms").z, i.z),
+                                             z3.Implies(both(c, c.forall([(TEng, "eng")], lambda g: g)), V.all_supp(env.new_terms.z, c.forall([(TEng, "eng")], lambda g: g).z)))))
 
     # ------------------------------------------------------------------ simplify (C05)
     def simplify_sem(c):
         X = z3.Const("g_X", V.RS) if c.mode == "prove" else z3.Const(smt.fresh_name("qX"), V.RS)
         C = V.rcols(X)
         up, me, res = c.upstream.z if "upstream" in c.args else c.current.z, c.self.z, c.result.z
-        hyp = z3.And(V.uvalid(up, C), V.uvalid(me, V.rcols(V.sem(up, X))))
-        concl = z3.Or(res == smt.NONE, z3.And(V.sem(res, X) == V.sem(me, V.sem(up, X)), V.uvalid(res, C)))
-        body = z3.Implies(hyp, concl)
+        hyp = z3.And(V.uvalid(up, C), V.uvalid(me, V.opcols(up, C)))
+        body = z3.Implies(hyp, z3.Or(res == smt.NONE, V.sem(res, X) == V.sem(me, V.sem(up, X))))
         if c.mode == "prove":
             return B(body)
         return B(z3.ForAll([X], body, patterns=[V.sem(res, X), V.sem(me, V.sem(up, X))]))
 
+    def simplify_valid(c):
+        T = z3.Const("g_T", smt.TagSet) if c.mode == "prove" else z3.Const(smt.fresh_name("qT"), smt.TagSet)
+        up, me, res = c.upstream.z if "upstream" in c.args else c.current.z, c.self.z, c.result.z
+        body = z3.Implies(z3.And(V.uvalid(up, T), V.uvalid(me, V.opcols(up, T))),
+                          z3.Or(res == smt.NONE, z3.And(V.uvalid(res, T), V.opcols(res, T) == V.opcols(me, V.opcols(up, T)))))
+        if c.mode == "prove":
+            return B(body)
+        return B(z3.ForAll([T], body, patterns=[V.uvalid(res, T), V.opcols(res, T)]))
+
+    def simplify_supp(c):
+        g = c.forall([(TRefT(None), "eng")], lambda g: g).z if c.mode == "prove" else z3.Const(smt.fresh_name("qg"), smt.Ref)
+        up, me, res = c.upstream.z if "upstream" in c.args else c.current.z, c.self.z, c.result.z
+        body = z3.Implies(z3.And(V.supp(up, g), V.supp(me, g), res != smt.NONE), V.supp(res, g))
+        if c.mode == "prove":
+            return B(body)
+        return B(z3.ForAll([g], body, patterns=[V.supp(res, g)]))
+
     k = reg.contract("_unary_operation:UnaryOperation.simplify", virtual=True, properties=("C05",))
     k.ens("merged-equals-sequence", simplify_sem)
+    k.ens("merged-valid-on-the-upstream-target", simplify_valid)
+    k.ens("merged-supported-where-both-are", simplify_supp)
 
 
 # ====================================================================== commute (C04)
